@@ -111,7 +111,7 @@ pub fn subst_sig(eg: &EGraph<LV>, canon: &[usize], sb: &Subst) -> Sx {
 /// map, shows through): the model replays this order (see RewriteMachine.v).
 pub fn run_case(case: &Sx) -> (Sx, Sx, Sx) {
     let c = case.clone();
-    let r = in_fresh_thread(move || {
+    let r = in_fresh_thread_limited(move || {
         let l = c.as_lst();
         let mut obs = vec![sym("obs")];
         let mut extra = vec![sym("extra")];
@@ -168,7 +168,7 @@ pub fn run_case(case: &Sx) -> (Sx, Sx, Sx) {
         }
         (lst(obs), lst(extra), lst(sched))
     });
-    r.unwrap_or_else(|_| (sym("harness-thread-panic"), sym("harness-thread-panic"), lst(vec![sym("sched")])))
+    r.unwrap_or_else(|e| if e.0 == "timeout" { (timeout_obs(), lst(vec![sym("extra"), sym("timeout")]), lst(vec![sym("sched")])) } else { (sym("harness-thread-panic"), sym("harness-thread-panic"), lst(vec![sym("sched")])) })
 }
 
 pub fn flags() -> Sx {
